@@ -176,6 +176,7 @@ func VxB_SWR() {
 	snapshot := vxCloneHeader(resp.Header)
 	resp.Header.Set("X-Caller-Owned", "1") // the caller owns the response now
 	snapshot.Set("X-Caller-Owned", "1")
+	req.URL.Path = "/reused-by-the-caller" // ... and its request again (RoundTripper contract)
 
 	vxRunAll() // background work runs to completion (or blocks for ever)
 
@@ -186,6 +187,7 @@ func VxB_SWR() {
 		vxAssert((bgReq.Header.Get("If-None-Match") == "\"v1\"") == hasETag, "C20/revalidation-conditional-on-etag")
 		vxAssert((bgReq.Header.Get("If-Modified-Since") != "") == hasLM, "C20/revalidation-conditional-on-last-modified")
 		vxAssert(bgReq.Header.Get("X-Client") == "c", "C20/revalidation-carries-client-headers")
+		vxAssert(bgReq.URL.Path == "/p", "C16/background-request-shares-the-callers-url")
 		want := T
 		if T <= 0 {
 			want = 5 * time.Second
